@@ -186,6 +186,20 @@ impl Report {
             }
         }
     }
+    /// like `violation`, but `what` and `replay` are only computed when this occurrence is kept
+    pub fn violation_lazy(&mut self, property: &str, key: String, size: u64, f: impl FnOnce() -> (String, Value)) {
+        let k = (property.to_string(), key.clone());
+        match self.viol.get_mut(&k) {
+            Some(v) if size >= v.size => {
+                v.count += 1;
+                self.viol_total += 1;
+            }
+            _ => {
+                let (what, replay) = f();
+                self.violation(property, key, what, size, replay);
+            }
+        }
+    }
     pub fn merge(&mut self, o: Report) {
         self.states += o.states;
         self.transitions += o.transitions;
